@@ -92,9 +92,23 @@ func main() {
 			fmt.Fprintf(os.Stderr, "overlay: %v\n", err)
 			os.Exit(2)
 		}
+		var names []string
 		for _, e := range ents {
-			n := e.Name()
-			if e.IsDir() || !strings.HasSuffix(n, ".go") || strings.HasSuffix(n, "_test.go") {
+			if !e.IsDir() {
+				names = append(names, e.Name())
+			}
+		}
+		// files added to this package by hooks / replacements are rewritten as well
+		for k := range repl {
+			if filepath.Dir(k) == dir {
+				if _, err := os.Stat(k); err != nil {
+					names = append(names, filepath.Base(k))
+				}
+			}
+		}
+		sort.Strings(names)
+		for _, n := range names {
+			if !strings.HasSuffix(n, ".go") || strings.HasSuffix(n, "_test.go") {
 				continue
 			}
 			src := filepath.Join(dir, n)
